@@ -22,8 +22,9 @@ struct Obj {
   }
 };
 
-Vec naive(int shape, const Vec& a, const Vec& b, const Vec& h, const double* table, double sc, unsigned d) {
+Vec naive(int shape_, const Vec& a, const Vec& b, const Vec& h, const double* table, double sc, unsigned d) {
   Vec r(a.size());
+  int shape = base_shape(shape_);
   switch (shape) {
     case SUM_LL: case SUM_LR: case SUM_RL: case SUM_RR: for (size_t k = 0; k < r.size(); k++) r[k] = a[k] + b[k]; break;
     case DIFF_LL: case DIFF_RL: for (size_t k = 0; k < r.size(); k++) r[k] = a[k] - b[k]; break;
@@ -71,7 +72,7 @@ void run_C09(vh::Ctx& c) {
     double sc = r.coin(0.2) ? 2.0 : r.normal();
     Obj V, A, B; SU_vector H(d);
     std::unique_ptr<UserBuf> table;
-    if (shape == EVOLVE || shape == FASTEVOLVE) { h0.assign((size_t)d * d, 0.0); for (unsigned l = 1; l < d; l++) h0[d * l + l] = r.normal(); H = SU_vector(h0); table.reset(new UserBuf((size_t)d * (d - 1))); H.PrepareEvolve(table->p, sc); }
+    if (base_shape(shape) == EVOLVE || base_shape(shape) == FASTEVOLVE) { h0.assign((size_t)d * d, 0.0); for (unsigned l = 1; l < d; l++) h0[d * l + l] = r.normal(); H = SU_vector(h0); table.reset(new UserBuf((size_t)d * (d - 1))); H.PrepareEvolve(table->p, sc); }
     Setup S; S.sc = sc; S.ph = &H; S.table = table ? table->p : nullptr;
     switch (tk) {
       case T_EMPTY: V.v.reset(new SU_vector()); break;
@@ -115,7 +116,7 @@ void run_C09(vh::Ctx& c) {
     ledger::begin_window(0);
     try {
       if (ew) exec_elementwise(shape, form, G, S);
-      else if (shape == COMM || shape == ACOMM) exec_commutators(shape, form, G, S);
+      else if (base_shape(shape) == COMM || base_shape(shape) == ACOMM) exec_commutators(shape, form, G, S);
       else exec_evolution(shape, form, G, S);
     } catch (std::runtime_error& e) { threw = true; msg = e.what(); }
     long allocs = ledger::end_window();
@@ -133,7 +134,7 @@ void run_C09(vh::Ctx& c) {
       for (unsigned k = 0; k < d * d; k++) {
         double tol = 8 * EPS * ((form == F_ADD || form == F_SUB ? std::fabs(v0[k]) : 0.0) + std::fabs(tmp[k]));
         if (!(std::fabs(res[k] - expect[k]) <= tol)) {
-          c.violation(vh::fmt("C09:wrong-value:%s", ew ? "elementwise" : shape_name[shape]), what + vh::fmt(": component %u is %.17g, naive evaluation gives %.17g (old target %.17g, op result %.17g)", k, res[k], expect[k], v0.empty() ? 0.0 : (k < v0.size() ? v0[k] : 0.0), tmp[k]));
+          c.violation(vh::fmt("C09:wrong-value:%s", ew ? "elementwise" : shape_name[base_shape(shape)]), what + vh::fmt(": component %u is %.17g, naive evaluation gives %.17g (old target %.17g, op result %.17g)", k, res[k], expect[k], v0.empty() ? 0.0 : (k < v0.size() ? v0[k] : 0.0), tmp[k]));
           break;
         }
       }
@@ -144,7 +145,12 @@ void run_C09(vh::Ctx& c) {
     // operands are unchanged unless consumed as rvalues or being the target
     if (S.pa != S.pv && al != A_SHARED_BUFFER && !a_rvalue(shape) && !same_bits(comps(*S.pa), a0)) c.violation("C09:operand-modified", what + ": a");
     if (bin && S.pb != S.pv && !b_rvalue(shape) && !same_bits(comps(*S.pb), b0)) c.violation("C09:operand-modified", what + ": b");
-    if ((shape == EVOLVE) && !same_bits(comps(H), h0)) c.violation("C09:operand-modified", what + ": h");
+    if ((base_shape(shape) == EVOLVE) && !same_bits(comps(H), h0)) c.violation("C09:operand-modified", what + ": h");
+    // an rvalue operand for which the library has no consuming overload keeps its value
+    if (shape >= DIFF_LR) {
+      if (a_rvalue(shape) && S.pa != S.pv && al != A_SHARED_BUFFER && !ew && !same_bits(comps(*S.pa), a0)) c.violation("C09:operand-modified", what + ": a (passed as rvalue to an operation that cannot consume it)");
+      if (b_rvalue(shape) && bin && S.pb != S.pv && !ew && !same_bits(comps(*S.pb), b0)) c.violation("C09:operand-modified", what + ": b (passed as rvalue to an operation that cannot consume it)");
+    }
     if (A.buf && !a_rvalue(shape) && (&(*A.v)[0] != A.buf->p)) c.violation("C09:external-operand-rebound", what);
     if (idx % 9973 == 0) c.sample(what);
   });
